@@ -172,8 +172,17 @@ RcEnd(pt) ==
     /\ rcK' = [rcK EXCEPT ![pt] = 0]
     /\ UNCHANGED <<obs, prev, progress>>
 
+\* a condition is initialised before it is evaluated: `not`, `and`, `or` hand the initialisation on to every operand,
+\* from left to right (logged as the negated id of each scripted operand)
+RECURSIVE InitLog(_, _)
+InitLog(node, id) ==
+    IF node.k = "leaf" THEN <<0 - id>>
+    ELSE LET RECURSIVE Go(_, _)
+             Go(i, acc) == IF i > Len(node.c) THEN acc ELSE Go(i + 1, acc \o InitLog(node.c[i], 10 * id + i))
+         IN Go(1, <<>>)
 Logic(fm) ==
-    LET x == Ev(fm, 1) IN
+    LET y == Ev(fm, 1)
+        x == [r |-> y.r, log |-> InitLog(fm, 1) \o y.log] IN
     /\ res' = IF x.r = "e" THEN R("err", NoVal, x.log, NoVal, NoVal)
               ELSE R("bool", B2N(x.r = "t"), x.log, NoVal, NoVal)
     /\ UNCHANGED state
@@ -481,7 +490,13 @@ Count(s, x) == Cardinality({i \in 1..Len(s) : s[i] = x})
 \* was evaluated last and nothing after it.
 LogicExact ==
     [][ Is("logic") =>
-          LET fm == act'.fm  ids == LeafIds(fm, 1)  lg == res'.log IN
+          LET fm == act'.fm  ids == LeafIds(fm, 1)
+              all == res'.log
+              \* the log starts with the initialisations (negated ids): every operand once, before any evaluation
+              ni == Cardinality(ids)
+              lg == SubSeq(all, ni + 1, Len(all)) IN
+          /\ Len(all) >= ni
+          /\ \A p \in ids : Count(SubSeq(all, 1, ni), 0 - p[1]) = 1
           /\ \A i \in 1..Len(lg) : \E p \in ids : p[1] = lg[i]
           /\ IF ~HasErr(fm)
              THEN /\ Told(Holds(fm))
